@@ -1053,6 +1053,52 @@ fn flatten_name_parts(parts: &[String]) -> String {
     .replace(" * ", "*")
 }
 
+
+/// Verification hook: the token stream of the lexer alone (no parser feedback).
+#[cfg(dmntk_verif)]
+pub mod verif {
+  use super::{Lexer, TokenValue};
+  use crate::lalr::TokenType;
+  use dmntk_feel::Scope;
+
+  /// Tokenizes `input` against `scope`. The flags `(unary_tests, between, type_name, till_in)`
+  /// are set before the first token. Every item is the numeric token type, the `Debug` text of
+  /// the token value and the cursor position after the token; tokenization stops at end of
+  /// input, at a lexer error (reported as `(-1, message, position)`) or after `limit` tokens.
+  pub fn tokenize(scope: &Scope, start: TokenType, input: &str, flags: (bool, bool, bool, bool), limit: usize) -> Vec<(i32, String, usize)> {
+    let mut lexer = Lexer::new(scope, start, input);
+    if flags.0 {
+      lexer.set_unary_tests();
+    }
+    if flags.1 {
+      lexer.set_between();
+    }
+    if flags.2 {
+      lexer.set_type_name();
+    }
+    if flags.3 {
+      lexer.set_till_in();
+    }
+    let mut tokens = vec![];
+    while tokens.len() < limit {
+      match lexer.next_token() {
+        Ok((token_type, token_value)) => {
+          let end = matches!(token_value, TokenValue::YyEof);
+          tokens.push((token_type as i32, format!("{:?}", token_value), lexer.position));
+          if end {
+            break;
+          }
+        }
+        Err(reason) => {
+          tokens.push((-1, reason.to_string(), lexer.position));
+          break;
+        }
+      }
+    }
+    tokens
+  }
+}
+
 /// Definitions of errors raised by the lexer.
 pub mod errors {
   use dmntk_common::DmntkError;
